@@ -13,7 +13,7 @@ ID = "C15"
 READY = True
 LEVEL = "exploration"
 WORKERS = {"quick": 8, "thorough": 16}
-BUDGET = {"quick": 60, "thorough": 400}
+BUDGET = {"quick": 150, "thorough": 400}
 MIN_NONTRIVIAL = {"quick": 1500, "thorough": 30000}
 REQUIRED_HOOKS = ["json_to_cel", "encode", "decode", "path", "path-from-package", "evaluate:I", "evaluate:C", "special-encodings"]
 RULE = (
